@@ -58,8 +58,13 @@ def run(run):
         cases.append(c0)
         for _ in range(run.rng.choice([0, 2, 3])):          # further statements over the same catalogue, analysed one after the other in one process
             cases.append(lingen.case(run.rng, cat=c0[0]))
+    hc = []
+    while len(hc) < 120:                                    # a failing statement that registered a scope named like a base table, then that base table (one analyser)
+        c0 = lingen.case(run.rng)
+        hc += [c0] + lingen.failed_scope_pair(run.rng, c0[0])
+    cases = hc + cases
     reqs = ["LINEAGE %s | %s" % (c[0].request_part(), stmt.cps(c[1])) for c in cases]
-    im = core.run_impl(reqs + reqs[:100])
+    im = core.run_impl(reqs[:len(hc)]) + core.run_impl(reqs[len(hc):] + reqs[:100])
     mo = core.run_model(reqs)
     dis += stmt.tie(run, "LINEAGE (provider log)", reqs, mo, im[:len(reqs)], [c[1] for c in cases])
     n_keys = 0
